@@ -6,6 +6,8 @@ import (
 
 	"github.com/tanema/gween"
 	"github.com/tanema/gween/ease"
+	"google.golang.org/grpc/codes"
+	"google.golang.org/grpc/status"
 	"google.golang.org/protobuf/proto"
 	"google.golang.org/protobuf/types/known/timestamppb"
 
@@ -98,7 +100,7 @@ func (s *MemoryDevice) UpdateBrightness(ctx context.Context, request *traits.Upd
 						resource.WithResetPaths("target_level_percent", "brightness_tween"),
 						resource.WithExpectedValue(lastObj),
 					)
-					if err != nil && err != resource.ExpectedValuePreconditionFailed {
+					if err != nil && !rampSuperseded(err) {
 						panic(err) // programmer error
 					}
 					return
@@ -112,7 +114,7 @@ func (s *MemoryDevice) UpdateBrightness(ctx context.Context, request *traits.Upd
 					resource.WithExpectedValue(lastObj),
 				)
 				switch {
-				case err == resource.ExpectedValuePreconditionFailed:
+				case rampSuperseded(err):
 					// somebody else changed the value, tweening is done
 					return
 				case err != nil:
@@ -140,6 +142,12 @@ func (s *MemoryDevice) UpdateBrightness(ctx context.Context, request *traits.Upd
 		return nil, err
 	}
 	return res.(*traits.Brightness), nil
+}
+
+// rampSuperseded reports whether a frame of a ramp was not written because somebody else wrote the value:
+// before the frame (its precondition fails) or while the frame was being written (the write is aborted).
+func rampSuperseded(err error) bool {
+	return err == resource.ExpectedValuePreconditionFailed || status.Code(err) == codes.Aborted
 }
 
 func (s *MemoryDevice) PullBrightness(request *traits.PullBrightnessRequest, server traits.LightApi_PullBrightnessServer) error {
